@@ -613,11 +613,15 @@ impl<'a> Gen<'a> {
                 if cands.is_empty() {
                     return self.prim(d - 1);
                 }
-                let v = self.t.pick(&cands).name.clone();
+                let vv = self.t.pick(&cands).clone();
+                let v = vv.name.clone();
                 let op = *self.t.pick(&["=", "=", "||=", "&&=", "??="]);
                 if op != "=" {
                     self.label("logical-assign");
-                    if self.o.excl_f5_global_logical_assign_in_operand && self.flevel == 0 {
+                    // F5: on the short-circuit path the binding locator of a var / parameter / global
+                    // binding that lives in an environment stays pushed and is consumed by the
+                    // enclosing assignment, which then writes to the wrong binding
+                    if self.o.excl_f5_global_logical_assign_in_operand && (self.flevel == 0 || matches!(vv.kind, Kind::Var | Kind::Param)) {
                         self.excluded.push("f5-global-logical-assign");
                         return self.prim(d - 1);
                     }
@@ -739,6 +743,12 @@ impl<'a> Gen<'a> {
             .cloned()
             .collect();
         if cands.is_empty() {
+            return self.prim(d);
+        }
+        if self.in_finally > 0 && self.o.excl_f17_catch_in_finally {
+            // F17: a callee that catches an exception while a finally block is running replaces the
+            // pending completion; no calls of generated functions from inside finally
+            self.excluded.push("f17-call-in-finally");
             return self.prim(d);
         }
         let v = self.t.pick(&cands).clone();
@@ -1682,13 +1692,40 @@ impl<'a> Gen<'a> {
         self.kinds.insert("literal-condition");
         self.label("literal-condition");
         let h = self.fresh("h");
-        let c = *self.t.pick(&["false", "true", "0", "1", "''", "'x'", "null", "undefined", "NaN", "0n", "-0", "[]"]);
-        match self.t.below(5) {
+        // plain literals, constant expressions that fold to every falsy / truthy edge value (NaN, -0, '', 0n,
+        // null, undefined, Infinity, subnormals), and generated literal expressions
+        let mut risky = false;
+        let c = match self.t.below(4) {
+            0 => (*self.t.pick(&["false", "true", "0", "1", "''", "'x'", "null", "undefined", "NaN", "0n", "-0", "[]"])).to_string(),
+            1 | 2 => (*self.t.pick(&[
+                "0 / 0", "-'x'", "'a' * 2", "0 * -1", "2 - 2", "1 / 0", "-1 / 0", "'' + ''", "'a' + 'b'", "!0", "!1", "void 0", "0.5", "1e-320", "0n * 1n", "1n - 1n",
+                "1 < 2", "'b' < 'a'", "null ?? 0", "typeof 1", "0 || ''", "1 && 0 / 0", "+'1e'", "+''", "+' '", "-0 + 0", "-0 - 0", "0 % 1", "-1 % 1", "5e-324 / 2", "1e308 * 10",
+                "'0'", "' '", "+'0'", "!!'0'", "~-1", "1 >>> 32", "null + 0", "undefined + 1", "true - 1", "(0, 0)", "0 == ''", "null == 0", "NaN != NaN",
+            ])).to_string(),
+            _ if self.in_finally == 0 => {
+                risky = true;
+                self.lit_expr()
+            }
+            _ => "0 / 0".to_string(),
+        };
+        let mut body = String::new();
+        {
+        let out = &mut body;
+        match self.t.below(7) {
+            5 => out.push_str(&format!("do {{ print('do body'); }} while (({c}) && false);\nprint(!({c}) ? 'neg' : 'pos');\n")),
+            6 => out.push_str(&format!("if ({c}) print('only-then');\nif (!({c})) {{ print('not'); }} else if ({c}) {{ print('elif'); }}\n")),
             0 => out.push_str(&format!("if ({c}) {{ var {h} = 1; function fn{h}() {{ return 1; }} print('then'); }} else {{ print('else'); }}\nprint(typeof {h});\n")),
             1 => out.push_str(&format!("print({c} ? 'T' : 'F');\n")),
             2 => out.push_str(&format!("while ({c}) {{ var {h} = 2; print('body'); break; }}\nprint(typeof {h});\n")),
             3 => out.push_str(&format!("for (; {c};) {{ let {h} = 1; print('for body'); break; }}\n")),
-            _ => out.push_str(&format!("print(show({c} && 'and'), show({c} || 'or'), show({c} ?? 'nn'));\n")),
+            _ => out.push_str(&format!("print(show(({c}) && 'and'), show(({c}) || 'or'), show(({c}) ?? 'nn'));\n")),
+        }
+        }
+        if risky {
+            // a generated literal expression may throw (BigInt mixed with Number)
+            out.push_str(&format!("try {{\n{body}}} catch (e) {{ print(show(e)); }}\n"));
+        } else {
+            out.push_str(&body);
         }
     }
 
@@ -1696,6 +1733,12 @@ impl<'a> Gen<'a> {
         // literal-heavy expression statements for the optimizer
         self.kinds.insert("literal-expr");
         self.label("literal-expr");
+        let e = self.lit_expr();
+        out.push_str(&format!("try {{ print(show({e})); }} catch (e) {{ print(show(e)); }}\n"));
+    }
+
+    /// an expression over literals (and a few numeric variables) that the optimizer can fold
+    fn lit_expr(&mut self) -> String {
         let ops = ["+", "-", "*", "/", "%", "**", "|", "&", "^", "<<", ">>", ">>>", "<", "<=", ">", ">=", "==", "===", "!=", "!==", "&&", "||", "??"];
         let mut e = self.lit_leaf();
         let n = 1 + self.t.below(4);
@@ -1729,7 +1772,7 @@ impl<'a> Gen<'a> {
             let u = *self.t.pick(&["-", "+", "!", "~", "typeof ", "void "]);
             e = format!("({u}{e})");
         }
-        out.push_str(&format!("try {{ print(show({e})); }} catch (e) {{ print(show(e)); }}\n"));
+        e
     }
 
     fn lit_leaf(&mut self) -> String {
@@ -1762,6 +1805,65 @@ impl<'a> Gen<'a> {
             1 => out.push_str(&format!("const {m} = new Set([{a}, {b}, {a}]);\nprint(show([...{m}]), {m}.has({b}));\n")),
             2 => out.push_str(&format!("const {m} = [{a}, {b}, 3].map((x, i) => [i, x]).filter(p => p[0] !== 1);\nprint(show({m}));\n")),
             _ => out.push_str(&format!("const {m} = Object.entries({{ x: {a}, y: {b} }}).reduce((acc, [k, v]) => acc + k + String(v), '');\nprint({m});\n")),
+        }
+    }
+
+    /// Map/Set mutated while iterators are live: entries deleted / re-added / appended / cleared during
+    /// `forEach`, `for-of` and manual iteration, with one iterator kept alive across the operations and
+    /// others abandoned by `break` (they are only released by the collector). The visiting order and
+    /// `size` are fully specified, whatever the internal tombstone/lock bookkeeping does.
+    fn stmt_map_iter(&mut self, out: &mut String) {
+        if !self.spend(60) {
+            return self.stmt_print(out);
+        }
+        self.kinds.insert("map-iter");
+        self.label("map-iter");
+        let m = self.fresh("m");
+        let is_set = self.t.chance(90);
+        let (ctor, init, add) = if is_set { ("Set", "[1, 2, 3, 4]", "add") } else { ("Map", "[[1, 'a'], [2, 'b'], [3, 'c'], [4, 'd']]", "set") };
+        out.push_str(&format!("const {m} = new {ctor}({init});\n"));
+        let mut live: Vec<String> = vec![];
+        let steps = 2 + self.t.below(6);
+        for i in 0..steps {
+            let k = 1 + self.t.below(6);
+            let k2 = 1 + self.t.below(6);
+            let addk = |key: usize| if is_set { format!("{m}.add({key})") } else { format!("{m}.set({key}, 'v{key}_{i}')") };
+            let op = match self.t.below(6) {
+                0 => format!("{m}.delete({k});"),
+                1 => format!("{};", addk(k)),
+                2 => format!("{m}.delete({k}); {};", addk(k)),
+                3 => format!("{m}.delete({k}); {m}.delete({k2});"),
+                4 if self.t.chance(60) => format!("{m}.clear(); {};", addk(k2)),
+                _ => format!("{}; {m}.delete({k2});", addk(k + 6)),
+            };
+            match self.t.below(8) {
+                0 => {
+                    let it = format!("{m}i{i}");
+                    let kind = *self.t.pick(&["keys", "values", "entries"]);
+                    out.push_str(&format!("const {it} = {m}.{kind}(); print(show({it}.next()));\n"));
+                    live.push(it);
+                }
+                1 => out.push_str(&format!("for (const e of {m}) {{ print('abandon', show(e)); break; }}\n")),
+                2 => out.push_str(&format!("{m}.forEach(function (v, key) {{ print('each', show(key)); if (key === {k}) {{ {op} }} }});\n")),
+                3 => out.push_str(&format!("for (const e of {m}.keys()) {{ print('of', show(e)); if (e === {k2}) {{ {op} }} }}\n")),
+                4 => out.push_str(&format!("{m}.forEach(function (v, key) {{ if (key === {k}) {{ for (const q of {m}) {{ if (q !== undefined) break; }} {op} }} }});\n")),
+                5 => {
+                    if let Some(it) = live.last().cloned() {
+                        out.push_str(&format!("print(show({it}.next()));\n"));
+                    } else {
+                        out.push_str(&format!("{op}\n"));
+                    }
+                }
+                _ => out.push_str(&format!("{op}\n")),
+            }
+            if self.t.chance(100) {
+                out.push_str(&format!("print({m}.size, show([...{m}.keys()]), {m}.has({k}));\n"));
+            }
+        }
+        let _ = add;
+        out.push_str(&format!("print({m}.size, show([...{m}]));\n"));
+        for it in live {
+            out.push_str(&format!("print(show([...{it}]));\n"));
         }
     }
 
@@ -1848,6 +1950,7 @@ impl<'a> Gen<'a> {
             o.w_destructure,     // custom iterables (iterator protocol, closing)
             o.w_closure / 2,     // captured block-scoped binding (thunk called at program end)
             o.w_try / 2,         // abrupt exits through nested capturing scopes
+            o.w_collections + 1, // Map/Set mutated under live and abandoned iterators
         ];
         let mut choice = self.t.weighted(&weights);
         if self.in_finally > 0 && self.o.excl_f17_catch_in_finally && matches!(choice, 6 | 9 | 11 | 16 | 7 | 8 | 19 | 21) {
@@ -1879,6 +1982,7 @@ impl<'a> Gen<'a> {
             19 => self.stmt_iterable(out),
             20 => self.stmt_capture(out),
             21 => self.stmt_scope_exit(out),
+            22 => self.stmt_map_iter(out),
             _ => self.stmt_return_or_throw(out),
         }
     }
